@@ -147,16 +147,46 @@ func isReservedPageKey(key string) bool {
 	return false
 }
 
-func PageSource(source *gedcom.SourceNode) string {
-	// The pointer can be anything that does not contain a "@". It must not be
-	// able to name a file in another directory ("../x").
-	name := unsafeFileNameRegexp.ReplaceAllString(source.Pointer(), "-")
+// getSources returns the sources of the document by the name of their page
+// (without ".html"). The page is named after the pointer of the source, which
+// can be anything that does not contain a "@": it must not be able to name a
+// file in another directory ("../x") and no two sources, nor a source and
+// another page, can have the same name.
+func getSources(document *gedcom.Document, placesMap map[string]*place) map[string]*gedcom.SourceNode {
+	individuals := GetIndividuals(document, placesMap)
+	sources := map[string]*gedcom.SourceNode{}
 
-	if isReservedPageKey(strings.ToLower(name)) {
-		name = "source-" + name
+	for _, source := range document.Sources() {
+		name := unsafeFileNameRegexp.ReplaceAllString(source.Pointer(), "-")
+		key := name
+
+		for i := 1; ; i++ {
+			_, isSource := sources[key]
+			_, isIndividual := individuals[key]
+			_, isPlace := placesMap[key]
+
+			if !isSource && !isIndividual && !isPlace &&
+				!isReservedPageKey(strings.ToLower(key)) {
+				break
+			}
+
+			key = fmt.Sprintf("%s-%d", name, i)
+		}
+
+		sources[key] = source
 	}
 
-	return fmt.Sprintf("%s.html", name)
+	return sources
+}
+
+func PageSource(document *gedcom.Document, source *gedcom.SourceNode, placesMap map[string]*place) string {
+	for key, value := range getSources(document, placesMap) {
+		if value == source {
+			return fmt.Sprintf("%s.html", key)
+		}
+	}
+
+	return "#"
 }
 
 func PageStatistics() string {
